@@ -327,7 +327,17 @@ def r4m(orig, rule):
     return 'Some((%s, %s)) => { let %s = *%s; %s }' % (i, x, x, x, e)
 
 
+def rbw(orig, rule):
+    # X.borrow()  ->  X          (Borrow<T> for &T is the identity; components instantiated at references)
+    s = norm(orig)
+    out, n = re.subn(r' \. borrow \( \)', '', s)
+    if n == 0:
+        raise NoMatch('no .borrow()')
+    return out
+
+
 GENERATORS = {
+    'RBW': rbw,
     'R4m': r4m,
     'R12m': r12m,
     'R21': r21,
